@@ -371,12 +371,12 @@ func genLZBoundary(n int, seed uint64) []byte {
 	return out
 }
 
-var shapeNames = []string{"text", "crlf", "xml", "utf8-2", "utf8-3", "utf8-4", "utf8-wide", "dna", "dna-mixed", "base64", "hex", "numeric",
+var shapeNames = []string{"text", "crlf", "xml", "utf8-2", "utf8-3", "utf8-4", "utf8-wide", "utf8-dense", "dna", "dna-mixed", "base64", "hex", "numeric",
 	"elf", "pe", "wav8m", "wav16s", "bmp", "runs", "sparse", "skew1", "skew3", "const", "random", "zipmagic", "period3", "period255", "period65535",
 	"rot256", "fib", "raredom", "lzbound"}
 
 // a smaller set for the expensive products
-var coreShapes = []string{"text", "utf8-3", "utf8-wide", "dna", "elf", "wav16s", "runs", "sparse", "skew3", "const", "random", "rot256", "lzbound", "period255"}
+var coreShapes = []string{"text", "utf8-3", "utf8-wide", "utf8-dense", "dna", "elf", "wav16s", "runs", "sparse", "skew3", "const", "random", "rot256", "lzbound", "period255"}
 
 func shape(name string, n int) []byte {
 	if n == 0 {
@@ -398,6 +398,23 @@ func shape(name string, n int) []byte {
 		return genUTF8(n, seed, 0x1F300, 300)
 	case "utf8-wide":
 		return genUTF8(n, seed, 0x4E00, 20000)
+	case "utf8-dense":
+		// valid UTF-8 whose symbol map is almost as large as the text: 85% of the 3-byte
+		// characters are distinct code points (UTF codec: large map + 2-byte aliases)
+		out := make([]byte, 0, n+4)
+		chars := n / 3
+		distinct := min(chars*85/100, 30000)
+		for i := 0; len(out)+3 <= n; i++ {
+			r := rune(0x4E00 + i)
+			if i >= distinct {
+				r = rune(0x4E00 + (i*7)%max(distinct, 1))
+			}
+			out = append(out, byte(0xE0|r>>12), byte(0x80|(r>>6)&0x3F), byte(0x80|r&0x3F))
+		}
+		for len(out) < n {
+			out = append(out, ' ')
+		}
+		return out
 	case "dna":
 		return genDNA(n, seed, false)
 	case "dna-mixed":
